@@ -19,6 +19,7 @@ CONTRACT = {
     "re:^bb8::api::Builder::reaper_rate$": "tokio:interval(period>0)",
     "re:^bb8::api::Builder::(build|build_unchecked)$": "bb8:build(min_idle<=max_size)",
     "re:^tokio::time::interval::interval": "tokio:interval(period>0)",
+    "re:^tokio::runtime::builder::Builder::worker_threads$": "tokio:worker_threads>0",
 }
 
 SCAN = r"^pgcat::(pool|mirrors|query_router|admin|auth_passthrough|sharding)::"
@@ -33,7 +34,7 @@ QUANT = {
     "auth_query": "auth_query", "auth_query_user": "auth_query", "auth_query_password": "auth_query",
     "default_shard": "default_shard", "regex_search_limit": "regex_search_limit",
     "servers": "servers", "mirroring_target_index": "mirror_index", "mirrors": "mirrors",
-    "ban_time": "ban_time", "error_count": "error_count",
+    "ban_time": "ban_time", "error_count": "error_count", "worker_threads": "worker_threads",
 }
 # fields that only hold other configuration (collections / sub-structs); their leaves are what matters
 CONTAINERS = {"pools", "general", "users", "user", "settings", "address", "plugins", "shards_map", "path", "database", "host", "username",
@@ -62,6 +63,9 @@ NEEDS = {
     "regex": ["regex-compiles"],
     "auth_query": ["call-site:is_auth_query_configured"],
     "address_index": ["structural:address_index-is-enumerate-index"],
+    "worker_threads": ["worker_threads>0"],
+    "regex-group": ["regex-has-capture-group"],
+    "username": ["usernames-unique"],
 }
 
 
@@ -183,6 +187,9 @@ def run(ctx):
     vcheck("min_pool_size<=pool_size", USER_VALIDATE, "min_pool_size <= pool_size (bb8 build asserts)", fields=["min_pool_size", "pool_size"])
     vcheck("user-timeouts>0", USER_VALIDATE, "user-level timeouts must not be 0", fields=["connect_timeout", "idle_timeout", "server_lifetime"])
     vcheck("general-timeouts>0", CFG_VALIDATE, "general timeouts must not be 0", fields=["general", "connect_timeout", "idle_timeout", "server_lifetime"])
+    vcheck("worker_threads>0", CFG_VALIDATE, "general.worker_threads must not be 0 (tokio's runtime builder asserts)", fields=["general", "worker_threads"], consts=[0])
+    vcheck("regex-has-capture-group", POOL_VALIDATE, "routing regexes need the capture group the router reads", callee_pats=["re:^regex::regex::string::Regex::captures_len$"])
+    vcheck("usernames-unique", POOL_VALIDATE, "user names are unique within a pool (they key the pools)", fields=["users"], callee_pats=["re:HashSet.*::(insert|len)$"])
     vcheck("credentials-present", CFG_VALIDATE, "every user has a password unless auth_query is configured", fields=["password"])
 
     # ------------------------------------------------------------ structural / call-site dischargers
@@ -301,12 +308,20 @@ def run(ctx):
     seen_keys = {}
     nsites = 0
     for n, b in sorted(F.bodies.items()):
-        if not re.search(SCAN, n) or "::test::" in n or n.startswith("bin:"):
+        is_main = n in ("bin:pgcat::main", "bin:pgcat::main::{closure#0}")
+        if (not re.search(SCAN, n) or "::test::" in n or n.startswith("bin:")) and not is_main:
             continue
-        sites = panic_sites(b, include_expansion=False)
+        sites = panic_sites(b, include_expansion=False) if not is_main else []
         for pat, contract in CONTRACT.items():
             for c in b.calls(pat):
                 sites.append({"kind": "contract", "block": c.block, "what": contract, "ops": c.args[1:] if (len(c.args) > 1 and "build" not in contract) else c.args[:1], "span": c.span, "exp": c.exp, "call": c})
+        for c in b.calls("re:^regex::regex::string::Captures::get$"):
+            if isinstance(const_int(c.args[1]), int) and const_int(c.args[1]) >= 1:
+                sites.append({"kind": "positional", "block": c.block, "what": "Captures::get(%d)" % const_int(c.args[1]), "ops": c.args[:1], "span": c.span, "exp": c.exp, "call": c, "force_quant": "regex-group"})
+        if n == FROM_CONFIG:
+            for c in b.calls("re:^std::collections::hash::map::HashMap::insert$"):
+                if any("PoolIdentifier" in t for t in c.targs):
+                    sites.append({"kind": "positional", "block": c.block, "what": "HashMap<PoolIdentifier, _>::insert (a second pool under the same key replaces the first)", "ops": c.args[1:2], "span": c.span, "exp": c.exp, "call": c, "force_quant": "username"})
         for bb, blk in enumerate(b.blocks):
             for st in blk["stmts"]:
                 if st["k"] == "assign" and st["rv"]["k"] == "bin" and st["rv"]["op"] in ("Rem", "Div"):
@@ -337,6 +352,18 @@ def run(ctx):
                     if o.kind == "param" and in_fc_closure:
                         param_t = True
             quants = {QUANT[f] for f in flds if f in QUANT}
+            if s.get("force_quant"):
+                # only the routing regexes configured per pool (statics like the command regexes have literal patterns)
+                if s["force_quant"] == "regex-group":
+                    own = set(flds)
+                    par = F.closure_parents().get(n)
+                    if par is not None:
+                        # `regex.captures(text).and_then(|cap| cap.get(1)..)`: the regex is named in the function that built the closure
+                        for k in par[0].calls("re:^regex::regex::string::Regex::captures$"):
+                            own |= {p_[1:] for o in origins(par[0], k.args[0], taint=True) if o.kind in ("place", "param") for p_ in o.proj if p_.startswith(".")}
+                    if not (own & {"shard_id_regex", "sharding_key_regex"}):
+                        continue
+                quants = {s["force_quant"]}
             quants |= {"?unregistered:" + f for f in flds if f not in QUANT and f not in CONTAINERS}
             if not quants and not (in_fc_closure and param_t):
                 continue
